@@ -474,7 +474,23 @@ def merged(a, **kw):
     return d
 
 
+# bounded-exhaustive families: number of enumerated trees (indices below it are seed-independent)
+EXHAUSTIVE_FAMILIES = {"langx": 3815, "precx": 2085}
+
+LANG_Q = merged(SMALL, VP_EXH_MAX=4000, VP_EXH_LEN=6, VP_RANDOM=20, VP_GUIDED=20, VP_ALPHA_CAP=5)
+LANG_T = merged(BIG, VP_EXH_MAX=20000, VP_EXH_LEN=7, VP_RANDOM=60, VP_GUIDED=60, VP_ALPHA_CAP=5)
+
 GENERIC = {
+    "C02": dict(
+        rule="one-rule lexers for regex syntax trees: bounded-exhaustive (all 3815 trees with <= 2 operators over the atoms a, b, [a-b], [a-c], _, \"ab\", $$ascii_lowercase; thorough runs all, quick a seeded sample) plus random 3-operator and larger trees incl. `#`, each paired with a language-preserving rewrite (r+ = r r*, a|b = b|a, string = concatenation of its characters, r* = (r+)?) compiled as a second lexer; every string up to length 5-7 over {a,b,c,d,foreign}; oracle: derivative matcher cross-checked with a denotational matcher, and pairwise equality of the partner lexers. Non-trivial = distinct definitions with at least one operator.",
+        nt="nt_C02_cases",
+        parts=[("langx", "equiv", 320, 4800, 20, LANG_Q, LANG_T), ("lang", "equiv", 120, 1600, 20, LANG_Q, LANG_T)],
+    ),
+    "C16": dict(
+        rule="regex trees over {a, b, [a-b], [b-c], _} with * + ? concatenation | and # (bounded-exhaustive: all 2085 trees with <= 2 operators, plus random trees with 3-6 operators) and multi-rule-set definitions with top-level and rule-set-local lets (the same local name bound differently in different rule sets); every definition is printed four ways (fewest parentheses the documented grammar allows, fully parenthesised, redundant parentheses, subtrees named with let) and each printing compiled through the real macro; all printings must agree with the reference matcher on the TREE (which never passes through a parser) and with each other. Non-trivial = distinct (definition, printing) pairs.",
+        nt="variants",
+        parts=[("precx", "print", 240, 3200, 10, LANG_Q, LANG_T), ("scope", "print", 60, 600, 10, SMALL, BIG), ("mixed", "print", 40, 600, 10, SMALL, BIG)],
+    ),
     # prop: (rule text, nontrivial counter, [ (family, mode, quick_n, thorough_n, per_bin, quick_env, thorough_env) ], min_nontrivial)
     "C01": dict(
         rule="random 2-6 rule single-rule-set definitions over 3-5 letters (shared prefixes, cycles, joins, overlapping ranges, `_`), compiled through the real lexer! macro; inputs: all strings up to a length bound over the definition's alphabet plus one foreign letter, automaton-guided strings with failing continuations, random strings; oracle: reference maximal-munch lexer (derivative automaton, cross-checked against a denotational matcher). Non-trivial = distinct (definition, input) pairs in which the reference rewound at least one character or resolved a tie between two or more rules.",
@@ -540,13 +556,20 @@ GENERIC = {
 def run_generic(root, prop, tier, seed, res, cfg=None, extra_props=()):
     cfg = cfg or GENERIC[prop]
     eng = GenericEngine(root, prop, tier, seed)
+    if cfg.get("step_budget"):
+        eng.env["LEXGEN_VERIF_STEP_BUDGET"] = str(cfg["step_budget"])
     eng.prepare()
     for (family, mode, qn, tn, per_bin, qenv, tenv) in cfg["parts"]:
         n = qn if tier == "quick" else tn
         penv = qenv if tier == "quick" else tenv
         # indices depend on the seed so that different seeds explore different definitions
         base = (seed % 1000) * 100000
-        idx = list(range(base, base + n))
+        if family in EXHAUSTIVE_FAMILIES:
+            total = EXHAUSTIVE_FAMILIES[family]
+            n_exh = total if tier == "thorough" else min(total, (n * 3) // 4)
+            idx = sample_indices(total, n_exh, seed, family) + [total + base + i for i in range(max(0, n - n_exh))]
+        else:
+            idx = list(range(base, base + n))
         eng.add_batches(family, mode, idx, per_bin, penv)
     log("%s %s: %d batches" % (prop, tier, len(eng.batches)))
     eng.generate()
